@@ -402,7 +402,7 @@ def cases(draw, max_size, exclude):
             elif gk == "far":
                 gap = draw(st.integers(1, 1 << 28))
         pos += gap
-        sk = draw(st.sampled_from(("tiny", "tiny", "tiny", "tiny", "small", "small", "small", "mid", "to_boundary", "large")))
+        sk = draw(st.sampled_from(("tiny",) * 6 + ("small",) * 5 + ("mid", "mid", "to_boundary", "to_boundary", "large")))
         if sk in ("to_boundary", "large") and budget <= 0:
             sk = "small"  # at most about one big region per case keeps the quick tier cheap
         if sk == "tiny":
